@@ -233,7 +233,7 @@ Qed.
 
 Lemma guess_key_safe ka d : safe (guess_key ka (Ok (PDict d))).
 Proof.
-  destruct ka; cbn [guess_key bind py_get_str]; auto. exact I.
+  unfold guess_key. destruct (norm_key ka); cbn [bind py_get_str]; try exact I; try reflexivity.
   destruct (dget d (SK "kid")); cbn [bind]; apply get_by_kid_safe.
 Qed.
 
@@ -261,16 +261,17 @@ Hypothesis H_verify : forall row k m s,
 Hypothesis H_enc : forall n ct tag cek iv aad, safe (p_enc_decrypt P n ct tag cek iv aad).
 (* zlib: zlib.error on a corrupt stream, ExceededSizeError on a too long one *)
 Hypothesis H_inflate : forall b e, p_inflate P b = Err e -> e = EZlib \/ e = EJose ExceededSizeError.
-Hypothesis H_dir : forall n k, safe (p_dir_cek P n k).
-Hypothesis H_decrypt_cek : forall a k ek, safe (p_decrypt_cek P a k ek).
-Hypothesis H_gcmkw : forall a k iv tag ek, safe (p_gcmkw P a k iv tag ek).
+(* op_key.decrypt / aes_key_unwrap / AES-GCM unwrap with their except clauses: DecodeError or ValueError *)
+Hypothesis H_rsa : forall a k ek, safe (p_rsa_decrypt P a k ek).
+Hypothesis H_aes : forall kek ek, safe (p_aes_unwrap P kek ek).
+Hypothesis H_gcm : forall k iv tag ek, safe (p_gcm_unwrap P k iv tag ek).
 (* PBKDF2HMAC(iterations=c): OverflowError for c < 0 or c >= 2^64, a backend panic for
    2^31 <= c < 2^64, ValueError for 0; derives otherwise *)
 Hypothesis H_pbkdf2 : forall a k s c, (1 <= c <= 2147483647)%Z -> safe (p_pbkdf2 P a k s c).
-Hypothesis H_unwrap : forall a ek kek, safe (p_unwrap P a ek kek).
 (* binding.import_*_key of a validated JWK whose crv is registered: ValueError only *)
 Hypothesis H_import : forall kty d priv, safe (p_import_epk P kty d priv).
-Hypothesis H_exchange : forall k e, safe (p_exchange P k e).
+(* the pyca exchange after the type and curve checks: ValueError at most (low-order X25519/X448 points) *)
+Hypothesis H_ecdh : forall k e, safe (p_ecdh P k e).
 Hypothesis H_kdf : forall s f n, safe (p_concat_kdf P s f n).
 
 Lemma json_b64decode_only g text :
@@ -675,16 +676,16 @@ Proof.
 Qed.
 
 Lemma jwe_get_alg_spec g reg name : g_algstr_jwe g = true ->
-  match jwe_get_alg g reg name with Ok row => In row jwe_alg_table | Err e => e = EJose UnsupportedAlgorithmError end.
+  match jwe_get_alg g reg name with Ok row => In row (alg_tbl reg) | Err e => e = EJose UnsupportedAlgorithmError end.
 Proof. apply jwe_get_spec. Qed.
 Lemma jwe_get_enc_safe g reg name : g_algstr_jwe g = true -> safe (jwe_get_enc g reg name).
 Proof.
-  intro G. pose proof (jwe_get_spec g reg ee_name jwe_enc_table name G) as X. unfold jwe_get_enc.
+  intro G. pose proof (jwe_get_spec g reg ee_name (enc_tbl reg) name G) as X. unfold jwe_get_enc.
   destruct (do _ <- _; _); [exact I | subst; reflexivity].
 Qed.
 Lemma jwe_get_zip_safe g reg name : g_algstr_jwe g = true -> safe (jwe_get_zip g reg name).
 Proof.
-  intro G. pose proof (jwe_get_spec g reg ez_name jwe_zip_table name G) as X. unfold jwe_get_zip.
+  intro G. pose proof (jwe_get_spec g reg ez_name (zip_tbl reg) name G) as X. unfold jwe_get_zip.
   destruct (do _ <- _; _); [exact I | subst; reflexivity].
 Qed.
 
@@ -695,22 +696,31 @@ Definition is_VStr k := match k with VStr => true | _ => false end.
 Definition is_VInt k := match k with VInt => true | _ => false end.
 Definition is_VJwk k := match k with VJwk => true | _ => false end.
 
+Definition agreement_params (r : jwe_alg_row) : bool :=
+  has_param (ea_more r) "epk" is_VJwk true && has_param (ea_more r) "apu" is_VStr false
+  && has_param (ea_more r) "apv" is_VStr false.
+
 Definition row_ok (r : jwe_alg_row) : bool :=
   known_family (ea_family r) && hreg_wf (ea_more r) &&
-  (if String.eqb (ea_family r) "ECDHES"
-   then has_param (ea_more r) "epk" is_VJwk true && has_param (ea_more r) "apu" is_VStr false
-        && has_param (ea_more r) "apv" is_VStr false
+  (* only ECDH-1PU is tag aware (other agreement algorithms raise NotImplementedError there) *)
+  (negb (ea_tag_aware r) || String.eqb (ea_family r) "ECDH1PU") &&
+  (if String.eqb (ea_family r) "ECDHES" then agreement_params r
+   else if String.eqb (ea_family r) "ECDH1PU"
+   then agreement_params r && forallb (fun t => String.eqb t "EC" || String.eqb t "OKP") (ea_key_types r)
    else if String.eqb (ea_family r) "PBES2"
    then has_param (ea_more r) "p2s" is_VStr true && has_param (ea_more r) "p2c" is_VInt true
    else if String.eqb (ea_family r) "AESGCMKW"
    then has_param (ea_more r) "iv" is_VStr true && has_param (ea_more r) "tag" is_VStr true
    else true).
 
-Lemma jwe_table_ok : forallb row_ok jwe_alg_table = true.
-Proof. vm_compute. reflexivity. Qed.
+Lemma jwe_table_ok : forallb row_ok jwe_alg_table = true /\ forallb row_ok jwe_alg_table_drafts = true.
+Proof. vm_compute. auto. Qed.
 
-Lemma row_ok_In r : In r jwe_alg_table -> row_ok r = true.
-Proof. intro I. pose proof jwe_table_ok as T. rewrite forallb_forall in T. apply T. exact I. Qed.
+Lemma row_ok_In reg r : In r (alg_tbl reg) -> row_ok r = true.
+Proof.
+  intro I. destruct jwe_table_ok as [T1 T2]. unfold alg_tbl in I.
+  destruct (er_drafts reg); [rewrite forallb_forall in T2; apply T2 | rewrite forallb_forall in T1; apply T1]; exact I.
+Qed.
 
 Lemma has_param_In l name is_kind req :
   has_param l name is_kind req = true ->
@@ -721,7 +731,6 @@ Proof.
   apply String.eqb_eq in N. apply Bool.eqb_prop in R. destruct p as [n k r]. simpl in *. subst. eauto.
 Qed.
 
-(* a validated optional str member is absent or a str *)
 Lemma validated_opt_str more d cr name :
   validate_registry_header more (PDict d) cr = Ok tt -> has_param more name is_VStr false = true ->
   exists v, py_get_str (PDict d) (SK name) = Ok v /\ (v = PNone \/ is_str v = true).
@@ -745,7 +754,7 @@ Lemma jwe_check_header_spec g reg d :
   g_crit g = true -> g_algstr_jwe g = true -> jwe_reg_wf reg = true ->
   match jwe_check_header g reg (PDict d) true with
   | Ok _ => exists s row, dget d (SK "alg") = Some (PStr s) /\ jwe_get_alg g reg (PStr s) = Ok row /\
-                          In row jwe_alg_table /\
+                          In row (alg_tbl reg) /\
                           validate_registry_header (ea_more row) (PDict d) true = Ok tt
   | Err e => allowed_exn e = true
   end.
@@ -760,8 +769,9 @@ Proof.
   destruct (vrh_required_str _ _ _ EV W2) as [s Ds]. rewrite (getitem_of_dget _ _ _ Ds). cbn [bind].
   pose proof (jwe_get_alg_spec g reg (PStr s) G2) as A.
   destruct (jwe_get_alg g reg (PStr s)) as [row|e] eqn:EA; cbn [bind]; [|subst; reflexivity].
-  pose proof (row_ok_In row A) as RO. unfold row_ok in RO.
-  apply andb_true_iff in RO. destruct RO as [RO _]. apply andb_true_iff in RO. destruct RO as [_ WM].
+  pose proof (row_ok_In reg row A) as RO. unfold row_ok in RO.
+  apply andb_true_iff in RO. destruct RO as [RO _]. apply andb_true_iff in RO. destruct RO as [RO _].
+  apply andb_true_iff in RO. destruct RO as [_ WM].
   destruct (ea_more row) as [|m0 mr] eqn:EM.
   - assert (X : safe (if er_strict reg then check_supported_header (er_hreg reg) (PDict d) else Ok tt)).
     { destruct (er_strict reg); [apply only_value_safe, check_supported_only | exact I]. }
@@ -784,7 +794,6 @@ Proof.
   apply str_eqb_eq in E. subst. reflexivity.
 Qed.
 
-(* table facts of the JWK registries *)
 Lemma jwk_regs_wf :
   hreg_wf (map kp_as_h jwk_parameter_registry) = true /\
   hreg_wf (map kp_as_h value_registry_EC) = true /\ hreg_wf (map kp_as_h value_registry_OKP) = true.
@@ -796,7 +805,6 @@ Definition use_choices_ok : bool :=
                     | Some cs => forallb (fun c => existsb (fun q => String.eqb (fst q) c) use_key_ops_registry) cs
                     | None => false
                     end) (map kp_as_h jwk_parameter_registry) &&
-  (* "use" and "key_ops" are only registered with a choice validator *)
   forallb (fun p => if String.eqb (hp_name p) "use" || String.eqb (hp_name p) "key_ops"
                     then match choices_of (hp_kind p) with Some _ => true | None => false end else true)
           (map kp_as_h jwk_parameter_registry) &&
@@ -819,7 +827,6 @@ Qed.
 Lemma ops_loop_only l ops : only_value (ops_loop l ops).
 Proof. induction l as [|o r IH]; intros e H; cbn [ops_loop] in H; [discriminate|]. destruct (choice_mem ops o); [eapply IH; eauto | congruence]. Qed.
 
-(* a str accepted by a choice validator is one of the choices *)
 Lemma choice_valid_str k cs s :
   choices_of k = Some cs -> validate_kind k (PStr s) = Ok tt -> choice_mem cs (PStr s) = true.
 Proof.
@@ -827,7 +834,6 @@ Proof.
     destruct (choice_mem cs (PStr s)); congruence.
 Qed.
 
-(* a value accepted by a choice validator is a list or a str: it can be iterated *)
 Lemma choice_valid_iter k cs v :
   choices_of k = Some cs -> validate_kind k v = Ok tt -> exists l, py_iter v = Ok l.
 Proof.
@@ -876,83 +882,146 @@ Proof.
   eapply validate_use_ops_only; eauto.
 Qed.
 
-Lemma import_epk_safe g rk epk :
+(* the imported key has the recipient key's type *)
+Lemma import_epk_spec g rk epk :
   g_use_str g = true -> g_crv_ec g = true -> g_crv_okp g = true -> is_dict epk = true ->
-  safe (import_epk g P rk epk).
+  match import_epk g P rk epk with Ok k => k_kty k = k_kty rk | Err e => allowed_exn e = true end.
 Proof.
   intros G1 G2 G3 D. destruct epk; try discriminate. unfold import_epk.
   destruct jwk_regs_wf as [_ [WE WO]].
   set (vreg := if String.eqb (k_kty rk) "EC" then value_registry_EC else value_registry_OKP).
   assert (WV : hreg_wf (map kp_as_h vreg) = true) by (unfold vreg; destruct (String.eqb (k_kty rk) "EC"); assumption).
-  apply safe_bind; [apply only_value_safe, validate_dict_key_only; assumption|]. intros [] Hv.
+  pose proof (validate_dict_key_only g vreg d G1 WV) as VD.
+  destruct (validate_dict_key g vreg (PDict d)) as [[]|e] eqn:Hv; cbn [bind]; [|rewrite (VD e eq_refl); reflexivity].
   unfold validate_dict_key in Hv. inv_bind Hv. inv_bind Hv. destruct a, a0.
-  (* "crv" is a required str of both value registries *)
   assert (Hc : exists s, dget d (SK "crv") = Some (PStr s)).
   { eapply vrh_required_str; [exact Ha0|]. unfold vreg. destruct (String.eqb (k_kty rk) "EC"); vm_compute; reflexivity. }
   destruct Hc as [s Ds]. rewrite (getitem_of_dget _ _ _ Ds). cbn [bind].
   destruct (negb _) eqn:Kn.
   - destruct (String.eqb (k_kty rk) "EC"); [rewrite G2 | rewrite G3]; reflexivity.
-  - apply safe_bind; [apply H_import|]. intros k _.
-    apply safe_bind; [apply only_value_safe, validate_dict_key_only; assumption|]. intros _ _. exact I.
+  - pose proof (H_import (k_kty rk) d (dmem d (SK "d"))) as HI.
+    destruct (p_import_epk P (k_kty rk) d (dmem d (SK "d"))) as [[]|e]; cbn [bind]; [|exact HI].
+    pose proof (validate_dict_key_only g vreg (dset d (SK "kty") (PStr (SK (k_kty rk)))) G1 WV) as VD2.
+    destruct (validate_dict_key g vreg (PDict (dset d (SK "kty") (PStr (SK (k_kty rk)))))) as [[]|e]; cbn [bind];
+      [reflexivity | rewrite (VD2 e eq_refl); reflexivity].
 Qed.
 
 (* ---------------- JWE: derive_key ---------------- *)
-Lemma u32be_len_safe s b : s = PNone \/ is_str s = true -> safe (u32be_len_input s b).
+Lemma u32be_len_safe s b : s = PNone \/ is_str s = true \/ (exists x, s = PBytes x) -> safe (u32be_len_input s b).
 Proof.
-  intros [E | E]; [subst; exact I|]. destruct s; try discriminate. unfold u32be_len_input.
-  destruct (negb (py_truth (PStr s))); [exact I|].
-  apply safe_bind; [|intros; exact I].
-  destruct b; [apply safe_bind; [apply to_bytes_str_safe | intros; apply b64d_safe] | apply to_bytes_str_safe].
+  intros [E | [E | [x E]]]; [subst; exact I| |].
+  - destruct s; try discriminate. unfold u32be_len_input.
+    destruct (negb (py_truth (PStr s))); [exact I|].
+    apply safe_bind; [|intros; exact I].
+    destruct b; [apply safe_bind; [apply to_bytes_str_safe | intros; apply b64d_safe] | apply to_bytes_str_safe].
+  - subst. unfold u32be_len_input. destruct (negb (py_truth (PBytes x))); [exact I|].
+    apply safe_bind; [|intros; exact I].
+    destruct b; [cbn [to_bytes bind]; apply b64d_safe | exact I].
 Qed.
 
-Lemma derive_key_safe shared d cek ks more sa se :
+Lemma derive_key_safe shared d cek ks more sa se tag :
   validate_registry_header more (PDict d) true = Ok tt ->
   has_param more "apu" is_VStr false = true -> has_param more "apv" is_VStr false = true ->
   dget d (SK "alg") = Some (PStr sa) -> dget d (SK "enc") = Some (PStr se) ->
-  safe (derive_key_for_concat_kdf P shared (PDict d) cek ks).
+  safe (derive_key_for_concat_kdf P shared (PDict d) cek ks tag).
 Proof.
   intros V Hu Hv Da De. unfold derive_key_for_concat_kdf.
   destruct (validated_opt_str _ _ _ _ V Hu) as [u [Eu Pu]]. rewrite Eu. cbn [bind].
-  apply safe_bind; [apply u32be_len_safe; exact Pu|]. intros apu _.
+  apply safe_bind; [apply u32be_len_safe; tauto|]. intros apu _.
   destruct (validated_opt_str _ _ _ _ V Hv) as [v [Ev Pv]]. rewrite Ev. cbn [bind].
-  apply safe_bind; [apply u32be_len_safe; exact Pv|]. intros apv _.
+  apply safe_bind; [apply u32be_len_safe; tauto|]. intros apv _.
   assert (X : exists sx, py_getitem_str (PDict d) (SK match ks with Some _ => "alg" | None => "enc" end) = Ok (PStr sx)).
   { destruct ks; [exists sa; apply getitem_of_dget; exact Da | exists se; apply getitem_of_dget; exact De]. }
   destruct X as [sx Ex]. rewrite Ex. cbn [bind].
-  apply safe_bind; [apply u32be_len_safe; right; reflexivity|]. intros alg_id _. apply H_kdf.
+  apply safe_bind; [apply u32be_len_safe; right; left; reflexivity|]. intros alg_id _.
+  apply safe_bind; [|intros; apply H_kdf].
+  destruct tag as [[|x y]|]; exact I.
 Qed.
 
 Lemma key_type_in_safe k l : safe (key_type_in k l).
 Proof. unfold key_type_in. destruct (existsb _ l); [exact I | reflexivity]. Qed.
+Lemma get_op_key_safe k op : safe (get_op_key k op).
+Proof. unfold get_op_key. destruct (existsb _ _); [reflexivity | exact I]. Qed.
+Lemma check_op_key_safe sz k : safe (check_op_key sz k).
+Proof. unfold check_op_key. destruct sz; [destruct (_ =? _); [exact I | reflexivity] | exact I]. Qed.
+Lemma unwrap_cek_safe sz ek kek : safe (unwrap_cek P sz ek kek).
+Proof. unfold unwrap_cek. apply safe_bind; [apply check_op_key_safe|]. intros. apply H_aes. Qed.
+
+Lemma exchange_safe g self other :
+  g_exchange_type g = true -> safe (exchange_derive_key g P self other).
+Proof.
+  intro G. unfold exchange_derive_key. rewrite G. cbn [andb].
+  destruct (String.eqb (k_kty self) "EC").
+  - destruct (String.eqb (k_kty other) "EC"); cbn [negb]; [|reflexivity].
+    apply safe_bind; [apply get_op_key_safe|]. intros _ _.
+    destruct (negb (k_private self)); [reflexivity|].
+    destruct (String.eqb (k_crv self) (k_crv other)); [apply H_ecdh | reflexivity].
+  - apply safe_bind; [apply get_op_key_safe|]. intros _ _.
+    destruct (_ || _); [apply H_ecdh | reflexivity].
+Qed.
+
+Definition needs_km (g : guards) : bool :=
+  g_use_str g && g_crv_ec g && g_crv_okp g && g_p2c g && g_1pu_sender g && g_exchange_type g && g_1pu_keytype g.
 
 Lemma decrypt_agreed_safe g alg enc d r sa se :
-  g_use_str g = true -> g_crv_ec g = true -> g_crv_okp g = true ->
-  ea_family alg = "ECDHES"%string -> row_ok alg = true ->
+  needs_km g = true -> agreement_params alg = true ->
   validate_registry_header (ea_more alg) (PDict d) true = Ok tt ->
   dget d (SK "alg") = Some (PStr sa) -> dget d (SK "enc") = Some (PStr se) ->
   safe (decrypt_agreed_upon_key g P alg enc (PDict d) r).
 Proof.
-  intros G1 G2 G3 F RO V Da De. unfold row_ok in RO. rewrite F in RO. cbn [String.eqb Ascii.eqb Bool.eqb] in RO.
-  apply andb_true_iff in RO. destruct RO as [_ RO]. apply andb_true_iff in RO. destruct RO as [RO Hv].
-  apply andb_true_iff in RO. destruct RO as [He Hu].
+  intros N AP V Da De. unfold needs_km in N. repeat (apply andb_true_iff in N; destruct N as [N ?]).
+  unfold agreement_params in AP. apply andb_true_iff in AP. destruct AP as [AP Hv].
+  apply andb_true_iff in AP. destruct AP as [He Hu].
   destruct (validated_req _ _ _ _ V He) as [k [epk [Kk [Depk Vk]]]]. destruct k; try discriminate.
   unfold decrypt_agreed_upon_key. rewrite py_in_dict. cbn [bind].
   rewrite (dmem_of_dget _ _ _ Depk). cbn [assert_ bind].
   apply safe_bind; [apply key_type_in_safe|]. intros _ _.
   rewrite (getitem_of_dget _ _ _ Depk). cbn [bind].
   cbn [validate_kind] in Vk. destruct (is_dict epk) eqn:ID; [|discriminate].
-  apply safe_bind; [apply import_epk_safe; assumption|]. intros ek _.
-  apply safe_bind; [apply H_exchange|]. intros shared _.
+  pose proof (import_epk_spec g (rc_key r) epk N H4 H3 ID) as IE.
+  destruct (import_epk g P (rc_key r) epk) as [ek|e]; cbn [bind]; [|exact IE].
+  apply safe_bind; [apply exchange_safe; assumption|]. intros shared _.
+  eapply derive_key_safe; eauto.
+Qed.
+
+Lemma decrypt_agreed_1pu_safe g alg enc d r sa se tag :
+  needs_km g = true -> agreement_params alg = true ->
+  forallb (fun t => String.eqb t "EC" || String.eqb t "OKP") (ea_key_types alg) = true ->
+  validate_registry_header (ea_more alg) (PDict d) true = Ok tt ->
+  dget d (SK "alg") = Some (PStr sa) -> dget d (SK "enc") = Some (PStr se) ->
+  safe (decrypt_agreed_upon_key_1pu g P alg enc (PDict d) r tag).
+Proof.
+  intros N AP KT V Da De. pose proof N as N'. unfold needs_km in N'. repeat (apply andb_true_iff in N'; destruct N' as [N' ?]).
+  unfold agreement_params in AP. apply andb_true_iff in AP. destruct AP as [AP Hv].
+  apply andb_true_iff in AP. destruct AP as [He Hu].
+  destruct (validated_req _ _ _ _ V He) as [k [epk [Kk [Depk Vk]]]]. destruct k; try discriminate.
+  unfold decrypt_agreed_upon_key_1pu.
+  destruct (negb (ea_direct alg) && negb (String.eqb (ee_family enc) "CBCHS")); [reflexivity|].
+  rewrite py_in_dict. cbn [bind]. rewrite (dmem_of_dget _ _ _ Depk). cbn [assert_ bind].
+  destruct (rc_sender r) as [sk|]; [|rewrite H1; reflexivity].
+  rewrite H. unfold key_type_in.
+  destruct (existsb (String.eqb (k_kty (rc_key r))) (ea_key_types alg)) eqn:EX; cbn [bind]; [|reflexivity].
+  apply existsb_exists in EX. destruct EX as [t [It Et]]. apply String.eqb_eq in Et.
+  rewrite forallb_forall in KT. specialize (KT t It). rewrite <- Et in KT.
+  assert (X : negb (String.eqb (k_kty (rc_key r)) "EC") && negb (String.eqb (k_kty (rc_key r)) "OKP") = false).
+  { destruct (String.eqb (k_kty (rc_key r)) "EC"); [reflexivity|]. cbn in KT. rewrite KT. reflexivity. }
+  rewrite X.
+  rewrite (getitem_of_dget _ _ _ Depk). cbn [bind].
+  cbn [validate_kind] in Vk. destruct (is_dict epk) eqn:ID; [|discriminate].
+  pose proof (import_epk_spec g (rc_key r) epk N' H4 H3 ID) as IE.
+  destruct (import_epk g P (rc_key r) epk) as [ek|e]; cbn [bind]; [|exact IE].
+  apply safe_bind; [apply exchange_safe; assumption|]. intros s1 _.
+  apply safe_bind; [apply exchange_safe; assumption|]. intros s2 _.
   eapply derive_key_safe; eauto.
 Qed.
 
 Lemma pbes2_safe g alg d r ek :
-  g_p2c g = true -> ea_family alg = "PBES2"%string -> row_ok alg = true ->
+  g_p2c g = true ->
+  has_param (ea_more alg) "p2s" is_VStr true = true -> has_param (ea_more alg) "p2c" is_VInt true = true ->
   validate_registry_header (ea_more alg) (PDict d) true = Ok tt -> rc_ek r = Some ek ->
   safe (pbes2_decrypt_cek g P alg (PDict d) r).
 Proof.
-  intros G F RO V EK. unfold row_ok in RO. rewrite F in RO. cbn [String.eqb Ascii.eqb Bool.eqb] in RO.
-  apply andb_true_iff in RO. destruct RO as [_ RO]. apply andb_true_iff in RO. destruct RO as [Hs Hc].
+  intros G Hs Hc V EK.
   destruct (validated_req _ _ _ _ V Hs) as [k1 [p2s [K1 [D1 V1]]]]. destruct k1; try discriminate.
   destruct (validated_req _ _ _ _ V Hc) as [k2 [p2c [K2 [D2 V2]]]]. destruct k2; try discriminate.
   unfold pbes2_decrypt_cek. rewrite !py_in_dict. cbn [bind].
@@ -963,24 +1032,26 @@ Proof.
   apply safe_bind; [apply b64d_safe|]. intros salt _.
   rewrite (getitem_of_dget _ _ _ D2). cbn [bind].
   apply safe_bind; [apply key_type_in_safe|]. intros _ _.
+  apply safe_bind; [apply get_op_key_safe|]. intros _ _.
   cbn [validate_kind] in V2. destruct p2c; try discriminate.
   apply safe_bind.
   { rewrite G. cbn [andb]. destruct ((1 <=? z)%Z && (z <=? 2147483647)%Z) eqn:R; cbn [negb]; [|reflexivity].
     apply H_pbkdf2. apply andb_true_iff in R. destruct R as [R1 R2]. apply Z.leb_le in R1. apply Z.leb_le in R2. lia. }
-  intros kek _. unfold ek_or_assert. rewrite EK. cbn [bind]. apply H_unwrap.
+  intros kek _. unfold ek_or_assert. rewrite EK. cbn [bind]. apply unwrap_cek_safe.
 Qed.
 
 Lemma gcmkw_safe alg d r ek :
-  ea_family alg = "AESGCMKW"%string -> row_ok alg = true ->
+  has_param (ea_more alg) "iv" is_VStr true = true -> has_param (ea_more alg) "tag" is_VStr true = true ->
   validate_registry_header (ea_more alg) (PDict d) true = Ok tt -> rc_ek r = Some ek ->
   safe (gcmkw_decrypt_cek P alg (PDict d) r).
 Proof.
-  intros F RO V EK. unfold row_ok in RO. rewrite F in RO. cbn [String.eqb Ascii.eqb Bool.eqb] in RO.
-  apply andb_true_iff in RO. destruct RO as [_ RO]. apply andb_true_iff in RO. destruct RO as [Hi Ht].
+  intros Hi Ht V EK.
   destruct (validated_req _ _ _ _ V Hi) as [k1 [iv [K1 [D1 V1]]]]. destruct k1; try discriminate.
   destruct (validated_req _ _ _ _ V Ht) as [k2 [tg [K2 [D2 V2]]]]. destruct k2; try discriminate.
   unfold gcmkw_decrypt_cek.
   apply safe_bind; [apply key_type_in_safe|]. intros _ _.
+  apply safe_bind; [apply get_op_key_safe|]. intros _ _.
+  apply safe_bind; [apply check_op_key_safe|]. intros _ _.
   rewrite !py_in_dict. cbn [bind].
   rewrite (dmem_of_dget _ _ _ D1). cbn [assert_ bind]. rewrite (dmem_of_dget _ _ _ D2). cbn [assert_ bind].
   rewrite (getitem_of_dget _ _ _ D1). cbn [bind].
@@ -990,34 +1061,62 @@ Proof.
   rewrite (getitem_of_dget _ _ _ D2). cbn [bind].
   apply safe_bind; [apply to_bytes_str_safe|]. intros tgb _.
   apply safe_bind; [apply b64d_safe|]. intros tgd _.
-  unfold ek_or_assert. rewrite EK. cbn [bind]. apply H_gcmkw.
+  unfold ek_or_assert. rewrite EK. cbn [bind]. apply H_gcm.
 Qed.
 
-Lemma decrypt_recipient_safe g alg enc d r ek sa se :
-  g_use_str g = true -> g_crv_ec g = true -> g_crv_okp g = true -> g_p2c g = true ->
-  In alg jwe_alg_table ->
+Lemma decrypt_recipient_safe g reg alg enc d r ek sa se tag :
+  needs_km g = true -> In alg (alg_tbl reg) ->
   validate_registry_header (ea_more alg) (PDict d) true = Ok tt -> rc_ek r = Some ek ->
   dget d (SK "alg") = Some (PStr sa) -> dget d (SK "enc") = Some (PStr se) ->
-  safe (decrypt_recipient g P alg enc (PDict d) r).
+  safe (decrypt_recipient g P alg enc (PDict d) r tag).
 Proof.
-  intros G1 G2 G3 G4 I V EK Da De. pose proof (row_ok_In alg I) as RO.
-  pose proof RO as RO'. unfold row_ok in RO'. apply andb_true_iff in RO'. destruct RO' as [RO' _].
-  apply andb_true_iff in RO'. destruct RO' as [KF _].
+  intros N IA V EK Da De. pose proof (row_ok_In reg alg IA) as RO.
+  unfold row_ok in RO. apply andb_true_iff in RO. destruct RO as [RO FAM].
+  apply andb_true_iff in RO. destruct RO as [RO TA]. apply andb_true_iff in RO. destruct RO as [KF _].
+  pose proof N as N'. unfold needs_km in N'. repeat (apply andb_true_iff in N'; destruct N' as [N' ?]).
   unfold decrypt_recipient. rewrite KF. cbn [negb].
+  destruct (String.eqb (ea_family alg) "ECDHES") eqn:F1.
+  { cbn [orb]. destruct (ea_direct alg).
+    - rewrite EK. destruct ek; [|reflexivity]. eapply decrypt_agreed_safe; eauto.
+    - assert (F1p : String.eqb (ea_family alg) "ECDH1PU" = false).
+      { apply String.eqb_eq in F1. rewrite F1. reflexivity. }
+      rewrite F1p in TA. rewrite orb_false_r in TA. apply negb_true_iff in TA. rewrite TA.
+      apply safe_bind; [eapply decrypt_agreed_safe; eauto|]. intros auk _.
+      unfold ek_or_assert. rewrite EK. cbn [bind]. apply unwrap_cek_safe. }
+  destruct (String.eqb (ea_family alg) "ECDH1PU") eqn:F2.
+  { cbn [orb]. apply andb_true_iff in FAM. destruct FAM as [AP KT]. destruct (ea_direct alg).
+    - rewrite EK. destruct ek; [|reflexivity]. eapply decrypt_agreed_1pu_safe; eauto.
+    - apply safe_bind.
+      { destruct (ea_tag_aware alg); [eapply decrypt_agreed_1pu_safe; eauto|].
+        (* not tag aware: ECDHESAlgModel path is not used by this family, the generic method *)
+        unfold decrypt_agreed_upon_key. rewrite py_in_dict. cbn [bind].
+        unfold agreement_params in AP. apply andb_true_iff in AP. destruct AP as [AP Hv].
+        apply andb_true_iff in AP. destruct AP as [He Hu].
+        destruct (validated_req _ _ _ _ V He) as [k [epk [Kk [Depk Vk]]]]. destruct k; try discriminate.
+        rewrite (dmem_of_dget _ _ _ Depk). cbn [assert_ bind].
+        apply safe_bind; [apply key_type_in_safe|]. intros _ _.
+        rewrite (getitem_of_dget _ _ _ Depk). cbn [bind].
+        cbn [validate_kind] in Vk. destruct (is_dict epk) eqn:ID; [|discriminate].
+        pose proof (import_epk_spec g (rc_key r) epk N' H4 H3 ID) as IE.
+        destruct (import_epk g P (rc_key r) epk) as [ekk|e]; cbn [bind]; [|exact IE].
+        apply safe_bind; [apply exchange_safe; assumption|]. intros shared _.
+        eapply derive_key_safe; eauto. }
+      intros auk _. unfold ek_or_assert. rewrite EK. cbn [bind]. apply unwrap_cek_safe. }
+  cbn [orb].
   destruct (ea_direct alg).
   - rewrite EK. destruct ek; [|reflexivity].
-    destruct (String.eqb (ea_family alg) "ECDHES") eqn:F.
-    + apply String.eqb_eq in F. eapply decrypt_agreed_safe; eauto.
-    + apply safe_bind; [apply key_type_in_safe|]. intros _ _. apply H_dir.
-  - destruct (String.eqb (ea_family alg) "ECDHES") eqn:F.
-    + apply String.eqb_eq in F. apply safe_bind; [eapply decrypt_agreed_safe; eauto|]. intros auk _.
-      unfold ek_or_assert. rewrite EK. cbn [bind]. apply H_unwrap.
-    + destruct (String.eqb (ea_family alg) "PBES2") eqn:F2.
-      * apply String.eqb_eq in F2. eapply pbes2_safe; eauto.
-      * destruct (String.eqb (ea_family alg) "AESGCMKW") eqn:F3.
-        -- apply String.eqb_eq in F3. eapply gcmkw_safe; eauto.
+    apply safe_bind; [apply key_type_in_safe|]. intros _ _. destruct (_ =? _); [exact I | reflexivity].
+  - destruct (String.eqb (ea_family alg) "PBES2") eqn:F3.
+    + apply andb_true_iff in FAM. destruct FAM. eapply pbes2_safe; eauto.
+    + destruct (String.eqb (ea_family alg) "AESGCMKW") eqn:F4.
+      * apply andb_true_iff in FAM. destruct FAM. eapply gcmkw_safe; eauto.
+      * destruct (String.eqb (ea_family alg) "AESKW").
         -- apply safe_bind; [apply key_type_in_safe|]. intros _ _.
-           unfold ek_or_assert. rewrite EK. cbn [bind]. apply H_decrypt_cek.
+           apply safe_bind; [apply get_op_key_safe|]. intros _ _.
+           unfold ek_or_assert. rewrite EK. cbn [bind]. apply unwrap_cek_safe.
+        -- apply safe_bind; [apply key_type_in_safe|]. intros _ _.
+           apply safe_bind; [apply get_op_key_safe|]. intros _ _.
+           unfold ek_or_assert. rewrite EK. cbn [bind]. apply H_rsa.
 Qed.
 
 (* ---------------- JWE: message.py ---------------- *)
@@ -1034,9 +1133,8 @@ Qed.
 Definition rec_ok (r : recipient) : Prop := hdr_ok (rc_header r) = true /\ exists ek, rc_ek r = Some ek.
 
 Definition needs_jwe_core (g : guards) : bool :=
-  g_crit g && g_enc_present g && g_algstr_jwe g && g_crv_ec g && g_crv_okp g && g_p2c g && g_zlib g && g_use_str g.
+  g_crit g && g_enc_present g && g_algstr_jwe g && g_zlib g && needs_km g.
 
-(* the header registry also validates "enc" as a required str *)
 Definition jwe_reg_wf2 (r : jwe_reg) : bool := jwe_reg_wf r && hreg_requires_str (er_hreg r) "enc".
 
 Lemma jwe_check_header_enc g reg d :
@@ -1058,13 +1156,13 @@ Proof.
   cbn [recipients_loop]. rewrite Pr.
   destruct (recipient_headers_dict (jo_json o) pd (jo_unprotected o) (rc_header r) U Hh) as [d Ed].
   rewrite Ed. cbn [bind].
-  pose proof (jwe_check_header_spec g reg d N H4 W1) as C.
+  pose proof (jwe_check_header_spec g reg d N H1 W1) as C.
   destruct (jwe_check_header g reg (PDict d) true) as [[]|e] eqn:EC; cbn [bind]; [|exact C].
   destruct C as [sa [row [Da [GA [IA V]]]]].
   destruct (jwe_check_header_enc g reg d W EC) as [se De].
   rewrite (getitem_of_dget _ _ _ Da). cbn [bind]. rewrite GA. cbn [bind].
-  pose proof (decrypt_recipient_safe g row enc d r ek sa se H H3 H2 H1 IA V EK Da De) as DR.
-  destruct (decrypt_recipient g P row enc (PDict d) r) as [cek|e]; [apply IH|].
+  pose proof (decrypt_recipient_safe g reg row enc d r ek sa se (jo_tag o) H IA V EK Da De) as DR.
+  destruct (decrypt_recipient g P row enc (PDict d) r (jo_tag o)) as [cek|e]; [apply IH|].
   destruct e; try exact DR; try discriminate DR.
   destruct (er_verify_all reg); [exact DR | apply IH].
 Qed.
@@ -1077,7 +1175,7 @@ Proof.
   intros N W Pr U F. unfold perform_decrypt. apply safe_map_exn. intros e E.
   assert (X : safe (perform_decrypt_inner g P reg o)).
   { clear e E. pose proof N as N'. unfold needs_jwe_core in N'. repeat (apply andb_true_iff in N'; destruct N' as [N' ?]).
-    unfold perform_decrypt_inner. rewrite H5, Pr. rewrite py_in_dict. cbn [bind].
+    unfold perform_decrypt_inner. rewrite H2, Pr. rewrite py_in_dict. cbn [bind].
     destruct (dmem pd (SK "enc")) eqn:Me; cbn [negb]; [|reflexivity].
     destruct (getitem_dict_mem _ _ Me) as [ev [Ge _]]. rewrite Ge. cbn [bind].
     apply safe_bind; [apply jwe_get_enc_safe; assumption|]. intros enc _.
@@ -1096,11 +1194,22 @@ Proof.
   destruct c; reflexivity.
 Qed.
 
+Lemma guess_sender_key_safe sa d : safe (guess_sender_key sa (Ok (PDict d))).
+Proof.
+  destruct sa as [|k|[|k0 ks]]; cbn [guess_sender_key]; try exact I.
+  - apply safe_bind; [apply check_use_safe|]. intros; exact I.
+  - cbn [bind py_get_str]. set (ks' := k0 :: ks).
+    assert (X : forall skid, safe (if py_truth skid then do k <- get_by_kid ks' skid; do _ <- check_use k "enc"; Ok (Some k) else Err EValue)).
+    { intro skid. destruct (py_truth skid); [|reflexivity]. apply safe_bind; [apply get_by_kid_safe|]. intros k _.
+      apply safe_bind; [apply check_use_safe|]. intros; exact I. }
+    destruct (dget d (SK "skid")); cbn [bind]; apply X.
+Qed.
+
 Definition needs_jwe_compact (g : guards) : bool := needs_jwe_core g && g_rec_header g && g_dict_jwe_compact g.
 
-Lemma jwe_decrypt_compact_b_safe g reg ka value :
+Lemma jwe_decrypt_compact_b_safe g reg ka sa value :
   needs_jwe_compact g = true -> jwe_reg_wf2 reg = true ->
-  safe (jwe_decrypt_compact_b g P reg ka value).
+  safe (jwe_decrypt_compact_b g P reg ka sa value).
 Proof.
   intros N W. apply andb_true_iff in N. destruct N as [N Gd]. apply andb_true_iff in N. destruct N as [N Gr].
   unfold jwe_decrypt_compact_b.
@@ -1128,13 +1237,14 @@ Proof.
   destruct (recipient_headers_dict false pd PNone PNone eq_refl eq_refl) as [hd Eh]. rewrite Eh.
   apply safe_bind; [apply guess_key_safe|]. intros k _.
   apply safe_bind; [apply check_use_safe|]. intros _ _.
+  apply safe_bind; [apply guess_sender_key_safe|]. intros sk _.
   apply safe_bind; [|intros; exact I].
-  eapply perform_decrypt_safe; eauto; cbn; [reflexivity|].
+  apply perform_decrypt_safe with (pd := pd); [exact N | exact W | reflexivity | reflexivity |].
   constructor; [|constructor]. split; [reflexivity | eexists; reflexivity].
 Qed.
 
-Theorem jwe_decrypt_compact_safe g reg ka v :
-  needs_jwe_compact g = true -> jwe_reg_wf2 reg = true -> safe (jwe_decrypt_compact g P reg ka v).
+Theorem jwe_decrypt_compact_safe g reg ka sa v :
+  needs_jwe_compact g = true -> jwe_reg_wf2 reg = true -> safe (jwe_decrypt_compact g P reg ka sa v).
 Proof.
   intros N W. unfold jwe_decrypt_compact. apply safe_bind; [apply cinput_bytes_safe|].
   intros b _. apply jwe_decrypt_compact_b_safe; assumption.
@@ -1195,25 +1305,26 @@ Proof.
   constructor; assumption.
 Qed.
 
-Lemma attach_keys_spec ka pd u rl :
+Lemma attach_keys_spec ka sa pd u rl :
   hdr_ok u = true -> Forall rl_ok rl ->
-  match attach_keys true ka (PDict pd) u rl with Ok recs => Forall rec_ok recs | Err e => allowed_exn e = true end.
+  match attach_keys true ka sa (PDict pd) u rl with Ok recs => Forall rec_ok recs | Err e => allowed_exn e = true end.
 Proof.
   intros U F. induction F as [|[h ek] r [Hh [b Eb]] F IH]; [constructor|].
   cbn [attach_keys]. cbn [fst snd] in Hh, Eb.
   destruct (recipient_headers_dict true pd u h U Hh) as [d Ed]. rewrite Ed.
   pose proof (guess_key_safe ka d) as GK. destruct (guess_key ka (Ok (PDict d))) as [k|e]; cbn [bind]; [|exact GK].
   pose proof (check_use_safe k "enc") as CU. destruct (check_use k "enc") as [[]|e]; cbn [bind]; [|exact CU].
-  destruct (attach_keys true ka (PDict pd) u r) as [t|e]; cbn [bind]; [|exact IH].
+  pose proof (guess_sender_key_safe sa d) as GS. destruct (guess_sender_key sa (Ok (PDict d))) as [sk|e]; cbn [bind]; [|exact GS].
+  destruct (attach_keys true ka sa (PDict pd) u r) as [t|e]; cbn [bind]; [|exact IH].
   constructor; [|exact IH]. split; [exact Hh | subst; eexists; reflexivity].
 Qed.
 
 Definition needs_jwe_json (g : guards) : bool :=
   needs_jwe_core g && g_rec_header g && g_dict_jwe_json g && g_ek_default g.
 
-Theorem jwe_decrypt_json_safe g reg ka data :
+Theorem jwe_decrypt_json_safe g reg ka sa data :
   needs_jwe_json g = true -> jwe_reg_wf2 reg = true -> jwe_documented_shape data = true ->
-  safe (jwe_decrypt_json g P reg ka data).
+  safe (jwe_decrypt_json g P reg ka sa data).
 Proof.
   intros N W Sh. apply andb_true_iff in N. destruct N as [N Ge]. apply andb_true_iff in N. destruct N as [N Gd].
   apply andb_true_iff in N. destruct N as [N Gr].
@@ -1252,8 +1363,8 @@ Proof.
   destruct (if dmem d (SK "recipients") then _ else _) as [items|e]; cbn [bind]; [|exact X].
   pose proof (mapM_recipients g items Ge X) as MR.
   destruct (mapM (extract_recipient g) items) as [rl|e]; cbn [bind]; [|exact MR].
-  pose proof (attach_keys_spec ka pd u rl Hu MR) as AK.
-  destruct (attach_keys true ka (PDict pd) u rl) as [recs|e]; cbn [bind]; [|exact AK].
+  pose proof (attach_keys_spec ka sa pd u rl Hu MR) as AK.
+  destruct (attach_keys true ka sa (PDict pd) u rl) as [recs|e]; cbn [bind]; [|exact AK].
   apply perform_decrypt_safe with (pd := pd); [exact N | exact W | reflexivity | exact Hu | exact AK].
 Qed.
 
